@@ -148,7 +148,7 @@ def route (h : HttpCfg) (r : Request) : ReqM Response :=
       else match clientIdHeader h.allow r with
         | .error f => .done (refuse f)
         | .ok c =>
-          match assemble h.params.maxSize r.chunks ByteArray.empty with
+          match assemble h.params.maxSizeSnap r.chunks ByteArray.empty with
           | none => .done (refuse .badRequest)
           | some body =>
             if body.size = 0 then .done (refuse .badRequest)
